@@ -18,6 +18,16 @@ THEOREMS += ['C06_capture_cpu_source_is_model', 'C06_capture_gpu_source_is_model
 COLS = [3, 4, 5, 6, 7, 10]
 
 
+THEOREMS += ['C06_kernels_lane_run', 'C06_kernels_lane_local', 'C06_launch_is_cpu_loop', 'C06_level_order_is_cpu_order',
+             'C06_assign_gpu_instance_is_model', 'C06_assign_gpu_lane_is_model', 'C06_assign_cpu_gpu_same_source_model',
+             'C06_assign_hyps_example', 'C06_assign_bits_needed',
+             'C06_state_transfer_gpu_instance_partial', 'C06_state_transfer_gpu_out_of_range', 'C06_state_transfer_io_position_refuted',
+             'C06_state_transfer_example',
+             'C06_eval_cpu_instance_is_model', 'C06_accumulate_cpu_gpu_same_source_model', 'C06_eval_gpu_out_of_range', 'C06_eval_instance_example',
+             'C06_capture_writeback_cpu_gpu_same_source_model', 'C06_capture_gpu_no_slot',
+             'C06_capture_instance_example']   # driver code from the source text (Gen/WaveDriversSrc.v)
+
+
 def port_view(w, sims=None):
     s = np.asarray(w.s)[COLS]
     return s if sims is None else s[:, :, :sims]
@@ -293,6 +303,24 @@ def wave_paths(rng, k=None):
     return desc, None
 
 
+def wave_acc_paths(rng, k=None):
+    """CPU and GPU accumulation wrappers (abuf[a_loc, sim] += ... in level_eval_cpu vs cuda.atomic.add in wave_eval_gpu): generated
+    a_ctrl with different rise / fall weights and shared accumulators; abuf must be identical after every propagation."""
+    if k is None:
+        kw = wk.stress_kw(rng)
+        kw['with_actrl'] = True
+        k = wk.gen_wave_case(rng, sims=rng.choice([1, 2, 3]), **kw)
+    desc = dict(wk.describe(k), kind='waveacc')
+    a, b = wk.run_case(k, cuda=False), wk.run_case(k, cuda=True)
+    ab_a, ab_b = np.asarray(a.abuf), np.asarray(b.abuf)
+    if not np.array_equal(ab_a, ab_b):
+        i, l = np.argwhere(ab_a != ab_b)[0]
+        return desc, f'WaveSimCuda: abuf[{i}, {l}] = {ab_b[i, l]}, WaveSim gives {ab_a[i, l]} (a_ctrl rows with that accumulator: {[r for r in k.a_ctrl.tolist() if r[0] == i][:4]})'
+    if not np.array_equal(np.asarray(a.c), np.asarray(b.c)):
+        return desc, 'WaveSimCuda: waveform memory differs from WaveSim'
+    return desc, None
+
+
 def wave_wide(rng, k=None):
     """CPU and GPU code paths with MORE lanes than one thread block covers (block = 32 x 16), over two clock cycles with the
     state transfer s_ppo_to_ppi in between: every s row and the waveform memory must agree after every step."""
@@ -353,6 +381,7 @@ def wave_wide(rng, k=None):
 
 def run(ck):
     wk.regen_kernel(ck)
+    wk.regen_drivers(ck)
     if THEOREMS:
         from vcheck import gen_all
         gen_all.generate(['LaunchSrc'])     # tie T for the launcher: regenerated before the build (obligation recorded by launch_corr.run)
@@ -403,6 +432,16 @@ def run(ck):
         ck.nontrivial(('x', i))
         if what:
             fails.append((desc, what))
+    arng = random.Random(ck.seed * 7919 + 67)     # own stream: the accumulation wrappers, CPU vs GPU
+    for i in range(ck.scale(12, 300)):
+        try:
+            desc, what = wave_acc_paths(arng)
+        except Exception:
+            desc, what = {'kind': 'waveacc'}, 'raises ' + traceback.format_exc()[-500:]
+        ck.count(1, 'wave-cpu-gpu-accumulation-sets')
+        ck.nontrivial(('a', i))
+        if what:
+            fails.append((desc, what))
     try:
         line_mism = wave_line_level(ck, rng, ck.scale(16, 300), ck.scale(5, 80))
     except Exception:
@@ -410,6 +449,12 @@ def run(ck):
         ck.obligation('line-level correspondence (wexec_alias / wexec_sel) ran', False, 'correspondence', traceback.format_exc()[-800:])
     # the launcher model that C06_gpu_threads_cover is about = the real MockCuda launcher
     lfails = launch_corr.run(ck, rng, ck.scale(24, 200))
+    # the driver semantics the C06_assign_* / C06_state_transfer_* / C06_capture_writeback_* theorems are about = the real methods / kernels
+    from harness import drivers_corr
+    try:
+        lfails = lfails + drivers_corr.run(ck, random.Random(ck.seed * 7919 + 66), ck.scale(30, 300))
+    except Exception:
+        ck.obligation('driver semantics correspondence ran', False, 'correspondence', traceback.format_exc()[-800:])
     keyof = lambda d: 'options:' + d.get('kind', '?') + (':' + d['class'] if 'class' in d else '')
     unknown = [f for f in fails if ck.known_entry(keyof(f[0])) is None]
     ck.obligation('option / lane / code-path invariance holds on every generated configuration set (listed known findings excepted)',
@@ -467,6 +512,12 @@ def replay(rp):
     if inp.get('kind') == 'wavepath' and 'circuit' in inp:
         try:
             desc, what = wave_paths(random.Random(0), wk.from_description(inp))
+        except Exception:
+            return True
+        return what is not None
+    if inp.get('kind') == 'waveacc' and 'circuit' in inp:
+        try:
+            desc, what = wave_acc_paths(random.Random(0), wk.from_description(inp))
         except Exception:
             return True
         return what is not None
